@@ -1,7 +1,7 @@
 """C17 — the opgen CLI is faithful to the library recipe its flags describe."""
 import os, math, struct, subprocess, tempfile, shutil, re
 from .. import core, chargen, wlgen
-from ..spgref import f32_from_bits
+from ..spgref import f32_from_bits, Recipe
 
 W = 1 << 32
 CLASS_WORDS = {"uppercase": 1, "lowercase": 2, "digits": 4, "symbols": 8, "ambiguous": 16}
@@ -9,7 +9,8 @@ CLASS_CHARS = {1: "ABCDEFGHIJKLMNOPQRSTUVWXYZ", 2: "abcdefghijklmnopqrstuvwxyz",
 SEP_WORDS = {"hyphen": "-", "space": " ", "comma": ",", "period": ".", "underscore": "_", "digit": None, "none": ""}
 CAP_WORDS = ["none", "first", "all", "random", "one"]
 USAGE_MARK = b"opgen characters [--length=<n>]"
-FILE_WORDS = ["alpha", "beta", "gamma", "delta", "epsilon", "zeta", "eta", "theta", "iota", "kappa", "lambda", "mu", "nu", "xi", "omicron", "pi", "rho", "sigma"]
+FILE_WORDS = ["alpha", "beta", "gamma", "delta", "epsilon", "zeta", "eta", "theta", "iota", "kappa", "lambda", "mu", "nu", "xi", "omicron", "pi", "rho", "sigma",
+              "100%sure", "50%", "%d", "a%sb", "don't", "e-mail", "x_y", "tab%vtab"]
 
 
 def hxb(b):
@@ -144,7 +145,18 @@ def run_binary(exe, argv, tape_path):
 
 
 def title_simple(w):
-    return w[:1].upper() + w[1:]
+    """strings.Title on ASCII: upper-case a letter that starts the string or follows a byte that is not a letter, digit or underscore"""
+    out = []
+    start = True
+    for ch in w:
+        out.append(ch.upper() if (start and "a" <= ch <= "z") else ch)
+        start = not (ch.isascii() and (ch.isalnum() or ch == "_"))
+    return "".join(out)
+
+
+def untitle_candidates(w, wordset):
+    """the list words whose title-cased form is w"""
+    return [x for x in wordset if len(x) == len(w) and title_simple(x) == w]
 
 
 def model_line(argv, files, words):
@@ -203,6 +215,7 @@ def fmt_entropy(desc):
 def match_words(line, pattern, wordset, maxlen):
     """can `line` be cut into the pattern? pattern: list of ('sep', literal) | ('atom', capitalised?)"""
     n = len(line)
+    titled = set(title_simple(x) for x in wordset)
     pos = {0}
     for kind, arg in pattern:
         nxt = set()
@@ -214,11 +227,11 @@ def match_words(line, pattern, wordset, maxlen):
                 for q in range(p + 1, min(n, p + maxlen) + 1):
                     w = line[p:q]
                     if arg is True:
-                        ok = any(title_simple(x) == w for x in (w[:1].lower() + w[1:], w)) and ((w[:1].lower() + w[1:]) in wordset or w in wordset) and title_simple(w) == w
+                        ok = w in titled
                     elif arg is False:
                         ok = w in wordset
                     else:
-                        ok = w in wordset or ((w[:1].lower() + w[1:]) in wordset and title_simple(w) == w)
+                        ok = w in wordset or w in titled
                     if ok:
                         nxt.add(q)
         pos = nxt
@@ -433,7 +446,8 @@ def documented(argv, files):
             return set("".join(s for f, s in CLASS_CHARS.items() if m & f))
         ex = chars(exclude)
         d.update(kind="chars", length=L, alphabet=(chars(allow) | chars(require)) - ex,
-                 required=[set(CLASS_CHARS[f]) - ex for f in CLASS_CHARS if require & f and set(CLASS_CHARS[f]) - ex])
+                 required=[set(CLASS_CHARS[f]) - ex for f in CLASS_CHARS if require & f and set(CLASS_CHARS[f]) - ex],
+                 recipe=Recipe(L, allow, require, exclude))
         return d
     n = num(v.get("size"), 4)
     if n is None:
@@ -492,6 +506,41 @@ def oracle(ctx, deep):
             shutil.rmtree(tmp, ignore_errors=True)
 
 
+def documented_entropy_line(d):
+    """the line --entropy must print for the documented recipe, from an independent count; None when not decided here"""
+    try:
+        if d["kind"] == "chars":
+            r = d["recipe"]
+            if r.length < 1 or not r.allowed():
+                return None
+            c = r.count()
+            if c <= 0:
+                return None
+            x = math.log2(c)
+        else:
+            n = d["size"]
+            if n < 1:
+                return None
+            ws = set(d["words"])
+            twins = set()
+            for v in ws:
+                t = title_simple(v)
+                if t != v:
+                    twins.add(t)
+            kept = [w for w in ws if w not in twins]
+            x = n * math.log2(len(kept))
+            if all(title_simple(w) != w for w in kept):
+                x += n if d["cap"] == "random" else math.log2(n) if d["cap"] == "one" else 0
+            if d["sep"] == "digit":
+                x += (n - 1) * math.log2(10)
+    except Exception:
+        return None
+    x32 = struct.unpack(">f", struct.pack(">f", x))[0]
+    if abs((abs(x32 * 100) % 1.0) - 0.5) < 0.03:
+        return None
+    return ("%.2f\n" % x32).encode()
+
+
 def judge_line(d, rc, out):
     if "kind" not in d:
         if rc != d["exit"]:
@@ -504,8 +553,11 @@ def judge_line(d, rc, out):
     if d["kind"] == "chars":
         feasible = d["length"] >= 1 and d["alphabet"] and len(d["required"]) <= d["length"]
         if d["entropy"]:
-            if rc != 0 or not re.fullmatch(rb"(-?[0-9]+\.[0-9][0-9]|NaN|[+-]Inf)\n", out):
+            if d["length"] >= 1 and d["alphabet"] and (rc != 0 or not re.fullmatch(rb"(-?[0-9]+\.[0-9][0-9]|NaN|[+-]Inf)\n", out)):
                 return "--entropy must print one number and exit 0 (exit %s, %r)" % (rc, out[:40])
+            want = documented_entropy_line(d)
+            if want is not None and out != want:
+                return "--entropy printed %r, the documented recipe's entropy is %r" % (out, want)
             return None
         if not feasible:
             if d["length"] < 1 or not d["alphabet"]:
@@ -530,6 +582,9 @@ def judge_line(d, rc, out):
     if d["entropy"]:
         if rc != 0 or not re.fullmatch(rb"(-?[0-9]+\.[0-9][0-9]|NaN|[+-]Inf)\n", out):
             return "--entropy must print one number and exit 0 (exit %s, %r)" % (rc, out[:40])
+        want = documented_entropy_line(d)
+        if want is not None and out != want:
+            return "--entropy printed %r, the documented recipe's entropy is %r" % (out, want)
         return None
     if d["size"] < 1:
         return None if (rc == 1 and out == b"") else "a recipe the library cannot honour must exit 1 and print nothing (exit %s, %r)" % (rc, out[:40])
@@ -560,18 +615,18 @@ def judge_line(d, rc, out):
 def match_multi(line, pat, seplits, wordset, maxlen):
     pos = {0}
     n = len(line)
+    titled = set(title_simple(x) for x in wordset)
     for i, c in enumerate(pat):
         nxt = set()
         for p in pos:
             for q in range(p + 1, min(n, p + maxlen) + 1):
                 w = line[p:q]
-                low = w[:1].lower() + w[1:]
                 if c is True:
-                    ok = low in wordset and title_simple(low) == w or (w in wordset and title_simple(w) == w)
+                    ok = w in titled
                 elif c is False:
                     ok = w in wordset
                 else:
-                    ok = w in wordset or (low in wordset and title_simple(low) == w)
+                    ok = w in wordset or w in titled
                 if ok:
                     nxt.add(q)
         pos = nxt
